@@ -94,18 +94,44 @@ func c15Run(rat bool, ops []c15Op) (msg string) {
 		}
 		return n
 	}
-	checkRegs := func(what string, guaranteed map[int]bool) string {
+	// youngest returns the value of the youngest write of reg among the eligible pending writes under both
+	// readings of "youngest" (see Assumptions): the most recent one in the history, and the one with the largest
+	// tag (the most recent of those). Both coincide whenever writes arrive in program order.
+	youngest := func(reg int, eligible func(c15Write) bool) (hist, tag int32, any bool) {
+		var bestTag int32
+		for _, w := range pend {
+			if w.reg != reg || !eligible(w) {
+				continue
+			}
+			hist = w.val
+			if !any || w.tag >= bestTag {
+				tag, bestTag = w.val, w.tag
+			}
+			any = true
+		}
+		return
+	}
+	// checkRegs compares the architectural registers with the accepted values and adopts the reading the
+	// implementation follows where the two differ.
+	checkRegs := func(what string, guaranteed map[int]bool, accepted map[int][]int32) string {
 		if rat {
 			ctx.RATFlush()
 		}
 		for i, r := range c15Regs {
+			got := ctx.Registers[risc.RegisterType(regIdx(r))]
 			if !guaranteed[i] {
 				continue
 			}
-			got := ctx.Registers[risc.RegisterType(regIdx(r))]
-			if got != committed[i] {
-				return fmt.Sprintf("after %s: %s = %d, expected %d", what, r, got, committed[i])
+			ok := false
+			for _, a := range accepted[i] {
+				if got == a {
+					ok = true
+				}
 			}
+			if !ok {
+				return fmt.Sprintf("after %s: %s = %d, expected %v", what, r, got, accepted[i])
+			}
+			committed[i] = got
 		}
 		return ""
 	}
@@ -138,25 +164,21 @@ func c15Run(rat bool, ops []c15Op) (msg string) {
 			}
 			got := exe.RegisterValue
 			if o.K == 'p' {
-				// plain read: the youngest (most recent) uncommitted value, else the committed one
-				want := committed[o.Reg]
-				for _, w := range pend {
-					if w.reg == o.Reg {
-						want = w.val
-					}
+				// plain read: the youngest uncommitted value, else the committed one
+				h, t, any := youngest(o.Reg, func(c15Write) bool { return true })
+				if !any {
+					h, t = committed[o.Reg], committed[o.Reg]
 				}
-				if got != want {
-					return fmt.Sprintf("op %d %s returned %d, the youngest value is %d", i, o, got, want)
+				if got != h && got != t {
+					return fmt.Sprintf("op %d %s returned %d, the youngest value is %d (most recent write) / %d (largest tag)", i, o, got, h, t)
 				}
 			} else if countFor(o.Reg) <= slots {
 				// information only (not required by the statement): the youngest eligible write
-				exact := committed[o.Reg]
-				for _, w := range pend {
-					if w.reg == o.Reg && w.tag <= o.Tag {
-						exact = w.val
-					}
+				eh, et, any := youngest(o.Reg, func(w c15Write) bool { return w.tag <= o.Tag })
+				if !any {
+					eh, et = committed[o.Reg], committed[o.Reg]
 				}
-				if got != exact {
+				if got != eh && got != et {
 					c15InfoNotYoungest++
 				}
 				// tagged read: never a value written by a younger instruction
@@ -184,8 +206,13 @@ func c15Run(rat bool, ops []c15Op) (msg string) {
 			for r := range c15Regs {
 				g[r] = true // commit is guaranteed even beyond the slots
 			}
-			for _, w := range pend {
-				committed[w.reg] = w.val
+			acc := map[int][]int32{}
+			for r := range c15Regs {
+				h, t, any := youngest(r, func(c15Write) bool { return true })
+				if !any {
+					h, t = committed[r], committed[r]
+				}
+				acc[r] = []int32{h, t}
 			}
 			pend = nil
 			if rat {
@@ -193,7 +220,7 @@ func c15Run(rat bool, ops []c15Op) (msg string) {
 			} else {
 				ctx.Commit()
 			}
-			if m := checkRegs(fmt.Sprintf("op %d commit", i), g); m != "" {
+			if m := checkRegs(fmt.Sprintf("op %d commit", i), g, acc); m != "" {
 				return m
 			}
 		case 'b':
@@ -201,10 +228,13 @@ func c15Run(rat bool, ops []c15Op) (msg string) {
 			for r := range c15Regs {
 				g[r] = countFor(r) <= slots
 			}
-			for _, w := range pend {
-				if w.tag < o.Tag {
-					committed[w.reg] = w.val
+			acc := map[int][]int32{}
+			for r := range c15Regs {
+				h, t, any := youngest(r, func(w c15Write) bool { return w.tag < o.Tag })
+				if !any {
+					h, t = committed[r], committed[r] // unchanged if there is none
 				}
+				acc[r] = []int32{h, t}
 			}
 			pend = nil
 			if rat {
@@ -212,7 +242,7 @@ func c15Run(rat bool, ops []c15Op) (msg string) {
 			} else {
 				ctx.Rollback(o.Tag)
 			}
-			if m := checkRegs(fmt.Sprintf("op %d %s", i, o), g); m != "" {
+			if m := checkRegs(fmt.Sprintf("op %d %s", i, o), g, acc); m != "" {
 				return m
 			}
 			// registers outside the guarantee: resynchronise the model with what the table now holds
@@ -370,10 +400,10 @@ func (p propC15) NumCases(tier string) int {
 	return n + 48
 }
 func (propC15) Rule() string {
-	return "scripted histories on the public Context API of both mechanisms (TransactionWriteRegister/Commit/Rollback and InitRAT/TransactionRATWrite/RATCommit/RATRollback/RATFlush, reads through 'mv a7, r' executed plainly or with a sequence id) and on comp.RAT directly (ring lengths 2 and 3 exhaustively, 2..10 randomly). Exhaustive part: every history up to length 5 (quick) / 6 (thorough) over {write(reg, tag) for 2 registers x 4 tags in any order, plain read, tagged read (3 tags, ring only), commit, rollback(4 tags, two of them equal to a write's tag)}. Random part: histories of length 200 over 3 registers with seeded tags. Oracle exactly as the statement: commit -> youngest write; rollback(s) -> youngest write with tag < s, unchanged if none; a tagged read never returns a value with a younger tag; these are required while the uncommitted writes of the register fit the slots (1 map, 10 ring, n raw ring), beyond that only commit and plain reads are checked. 'Youngest' = most recent in the history among the eligible writes. distinct_nontrivial = distinct histories executed."
+	return "scripted histories on the public Context API of both mechanisms (TransactionWriteRegister/Commit/Rollback and InitRAT/TransactionRATWrite/RATCommit/RATRollback/RATFlush, reads through 'mv a7, r' executed plainly or with a sequence id) and on comp.RAT directly (ring lengths 2 and 3 exhaustively, 2..10 randomly). Exhaustive part: every history up to length 5 (quick) / 6 (thorough) over {write(reg, tag) for 2 registers x 4 tags in any order, plain read, tagged read (3 tags, ring only), commit, rollback(4 tags, two of them equal to a write's tag)}. Random part: histories of length 200 over 3 registers with seeded tags. Oracle exactly as the statement: commit -> youngest write; rollback(s) -> youngest write with tag < s, unchanged if none; a tagged read never returns a value with a younger tag; these are required while the uncommitted writes of the register fit the slots (1 map, 10 ring, n raw ring), beyond that only commit and plain reads are checked. 'Youngest' among writes that arrive out of tag order is ambiguous in the statement (most recent in the history, or largest tag): either value is accepted, anything else is a violation. distinct_nontrivial = distinct histories executed."
 }
 func (propC15) Assumptions() []string {
-	return []string{"'youngest write' is read as the most recent write in the history among the eligible ones (coincides with the largest tag whenever writes arrive in program order)", "the transaction map is read plainly only (its single user never passes a sequence id)"}
+	return []string{"'youngest write': when writes arrive out of tag order the statement can be read as the most recent write in the history or as the write with the largest tag; the oracle accepts either and nothing else (the two coincide whenever writes arrive in program order)", "the transaction map is read plainly only (its single user never passes a sequence id)"}
 }
 func (propC15) MinEvents(string) []string   { return []string{"histories", "rollbacks", "commits"} }
 func (propC15) Exhaustive(tier string) bool { return true }
